@@ -40,7 +40,7 @@ from .. import common as C
 from ..common import Corr, Violation, clist, cz
 from . import c09
 
-TRANSLATORS = ['hook_order']
+TRANSLATORS = ['hook_order', 'registrars_funs']
 PROP_FILES = ['Props/C11.v']
 
 TRUSTED_BASE = [
@@ -48,6 +48,11 @@ TRUSTED_BASE = [
     'modelled, not verified: asyncio.gather runs hook implementations that never suspend one after the other; dict/set '
     'semantics of CPython (insertion order, popitem = last); checked on every run by the per-topic comparison',
     'Gen/HookOrder.v is regenerated from nextline/plugin/plugins/__init__.py and registrars/*.py by translate/hook_order.py (fail-closed)',
+    'Gen/RegistrarsFuns.v: every hook implementation of registrars/*.py regenerated as a statement AST by '
+    'translate/registrars_funs.py (fail-closed; trusted: the Python-ast -> AST mapping, the list of untracked fields '
+    '(time stamps, RunInfo.script/result/exception), the semantics Registrars/Tie.v gives to the AST (dict/set/tuple '
+    'operations, `is` only against None/True/False, locks ignored) and the encodings load/enc_event/enc_value of the '
+    'model types); the C11_tie_* theorems of Props/C11.v prove, for all states and events, interpreted source = model',
 ]
 ASSUMPTIONS = [
     'a kill is a truncation of the event stream followed by on_end_run (RunSession.run awaits the relay task before _on_end_run)',
